@@ -292,6 +292,9 @@ impl Check for ExtractCheck {
         let mut out = Outcome::default();
         seam::apply(&run.knobs());
         let mut s: Sess<LS, ()> = Sess::new(EGraph::new(()), run.get("naming") as u32);
+        if run.get("companion") != 0 {
+            s.enable_companion();
+        }
         let kind = [SimCost::Size, SimCost::PositionWeighted, SimCost::OpWeighted][run.get("cost_fn").rem_euclid(3) as usize];
         let mut rng = Rng::stream(run.get("oracle_seed") as u64, "oracle-sampling");
         let every = run.get("extract_every") != 0;
